@@ -16,6 +16,7 @@ type recWriter struct {
 	buf   strings.Builder
 	limit int // -1 = never fails
 	calls int
+	late  bool // a failing Write takes the whole block and reports the error with the full count
 }
 
 var errWriter = errors.New("verif: writer failed")
@@ -23,6 +24,10 @@ var errWriter = errors.New("verif: writer failed")
 func (w *recWriter) Write(p []byte) (int, error) {
 	w.calls++
 	if w.limit >= 0 && w.buf.Len()+len(p) > w.limit {
+		if w.late {
+			w.buf.Write(p)
+			return len(p), errWriter
+		}
 		n := w.limit - w.buf.Len()
 		if n < 0 {
 			n = 0
@@ -62,6 +67,11 @@ func runC14(r *run) {
 			}
 			emit(caseT{"variants", w.args(src, g.context(i%2))})
 			emit(caseT{"render", w.args(plain, g.context(i%2))}) // the same program without the failing function: model correspondence
+		}
+		// templates without any tag or variable, too (the rejected-context stream below runs on every case)
+		for k, src := range []string{"", "plain text", "a{# c #}b", "{% verbatim %}{{ x }}{% endverbatim %}", "\n", "é <p>", "{# only a comment #}"} {
+			g := newProgGen(rg.fork(uint64(95000 + k)))
+			emit(caseT{"variants", (&world{}).args(src, g.context(0))})
 		}
 		// output pieces of every size around the usual buffer sizes, written by one node
 		// (a text, an include, an ifchanged body, a macro result) after a short start
@@ -269,6 +279,13 @@ func execC14(r *run, c caseT) {
 	for _, lim := range []int{0, 1, len(base.s) / 2, len(base.s) - 1} {
 		if lim < 0 || lim >= len(base.s) {
 			continue
+		}
+		// a writer may notice its error only after taking the data: (len(p), err) is an error too
+		lw := &recWriter{limit: lim, late: true}
+		cl, _ := mkCtx(0)
+		if lerr := tpl.ExecuteWriter(cl, lw); lerr == nil || !errors.Is(lerr, errWriter) {
+			r.reject(id, "ExecuteWriter did not hand back the error of a writer that reports it together with the full count", map[string]any{"template": src, "limit": lim, "returned": fmt.Sprint(lerr)})
+			return
 		}
 		f, wbuf, _, ewErr := runAll(0, lim)
 		if f.panicked != nil {
